@@ -125,6 +125,13 @@ def _load_plugins():
 
 
 _load_plugins()
+try:
+    # the area plug-ins of the `src` op get their own value tables (and their own ops are scoped to them) right away,
+    # not on the first `src` line of the process
+    import ops_src as _ops_src
+    _ops_src._load_plugins()
+except Exception:  # noqa: BLE001
+    pass
 
 
 def realize_via(n, mode: str):
